@@ -211,6 +211,40 @@ def run(ctx):
         ctx.decide(okb, "C19.ac", ac.ident, loc_of(ac), "no previous value -> delete; previous value -> reassign it",
                    "the restore branches are attached to the wrong case of 'previous value is None'", disc="polarity")
 
+    # every attribute the context overwrites on entry is put back on exit: state written before the yield (directly or through a helper method of the
+    # same object) other than the saved-and-restored defaults is left at the inner context's value when an enclosing context resumes
+    def _self_stores(fn, me_):
+        out = {}
+        for n_ in walk_no_nested(fn):
+            if isinstance(n_, ast.Attribute) and isinstance(n_.ctx, ast.Store) and isinstance(n_.value, ast.Name) and n_.value.id == me_:
+                out.setdefault(n_.attr, n_)
+        return out
+    me0 = ac.params[0]
+    try_nodes = [n_ for n_ in ac.node.body if isinstance(n_, ast.Try)]
+    pre_stmts = ac.node.body[: ac.node.body.index(try_nodes[0])] if try_nodes else ac.node.body
+    entry_writes = {}
+    for st_ in pre_stmts:
+        for a_, n_ in _self_stores(st_, me0).items():
+            entry_writes.setdefault(a_, n_)
+        for c_ in ast.walk(st_):
+            if isinstance(c_, ast.Call) and isinstance(c_.func, ast.Attribute) and isinstance(c_.func.value, ast.Name) and c_.func.value.id == me0:
+                h_ = A.resolve(c_.func.attr)
+                if h_ is not None and h_.params:
+                    for a_, n_ in _self_stores(h_.node, h_.params[0]).items():
+                        entry_writes.setdefault(a_, c_)
+    exit_restores = set()
+    for t_ in try_nodes:
+        for st_ in t_.finalbody:
+            for n_ in ast.walk(st_):
+                if isinstance(n_, ast.Assign) and isinstance(n_.value, ast.Name):
+                    for tg_ in n_.targets:
+                        if isinstance(tg_, ast.Attribute) and isinstance(tg_.value, ast.Name) and tg_.value.id == me0:
+                            exit_restores.add(tg_.attr)
+    extra = {a_: n_ for a_, n_ in entry_writes.items() if a_ != ATTR and a_ not in exit_restores}
+    ctx.decide(not extra, "C19.ac", ac.ident, loc_of(ac, next(iter(extra.values())) if extra else None),
+               f"the only state the context overwrites on entry is {ATTR}, which it saves and restores",
+               (f"entering the context also overwrites self.{next(iter(extra))} (line {getattr(next(iter(extra.values())), 'lineno', '?')}), which is neither saved before nor put back from a saved value on exit: "
+                "after an inner context is left, the enclosing context (or the plain instance) continues with the inner context's value of it") if extra else "", disc="all-attrs")
     # the saved previous value must not be modified through an alias while the context is active
     from ..evalr import Evaluator as _Ev
     evx = _Ev(repo, max_depth=0)
@@ -342,6 +376,9 @@ MUTANTS += [
 ]
 MUTANTS += [
     M("clean-up does file I/O before the restore", _A, "finally:\n            if prev is None:", "finally:\n            AspireFile(path, \"a\").close()\n            if prev is None:", "C19.ac"),
+]
+MUTANTS += [
+    M("entry also resets a book-keeping attribute that is never put back", _A, "prev = getattr(self, \"_checkpoint_defaults\", None)\n        self._checkpoint_defaults = {", "prev = getattr(self, \"_checkpoint_defaults\", None)\n        self._checkpoint_saved = {\"config\": False}\n        self._checkpoint_defaults = {", "C19.ac"),
 ]
 NEUTRALS = [
     M("clean-up logs before and does work after the restore", _A, "finally:\n            if prev is None:\n                if hasattr(self, \"_checkpoint_defaults\"):\n                    delattr(self, \"_checkpoint_defaults\")\n            else:\n                self._checkpoint_defaults = prev",
